@@ -140,10 +140,18 @@ package m
 //@   frozen IP by tryToGenerateAddress, AddressFromStorage, PublicAddressFromKeyPair, AddressFromKeyPair, router.Router.sessionFromPingHeader, router.AnnouncePingHandler.sessionFromAnnouncePingAttachment
 
 // Environment of the gossip handler: the table and the identity's signing call are assumed not to touch frames.
+// (For callers the frame is assumed - option trusted. The body is checked, in the C11 and C07 scopes, for two
+// things only: an identical route is looked for in the WHOLE destination section before the route counts as new
+// (so a re-announced route replaces its entry instead of being inserted twice), and after a replacement the WHOLE
+// destination section is sorted again (so the best route stays first when a route got worse).)
 //@ func RoutingTable.AddRoute
-//@   option trusted
+//@   option trusted clausesonly
 //@   modifies nothing
 //@   havoc F|m.RoutingTable, F|m.RoutingTableEntry, F|m.SwitchPath, M|
+//@   invariant 1 comparing-the-section: start <= i && i <= end
+//@   callsite slices.BinarySearchFunc route-is-new-only-after-the-whole-section-was-compared [C11,C07]: i >= end
+//@   callsite RoutingTable.stdSort route-is-new-only-after-the-whole-section-was-compared [C11,C07]: i >= end
+//@   callsite slices.SortFunc whole-destination-section-sorted-again [C11]: base(arg0) == base(rt.entries) && off(arg0) == off(rt.entries) + start && len(arg0) == end - start
 //@ func Address.SignWithContext
 //@   option trusted
 //@   modifies nothing
